@@ -439,7 +439,7 @@ theorem connect_unary_success_needs_200 (cfg : CCfg) (st : Bytes) (r : Resp)
     (h : (clientConnectUnary cfg st r).result = none) : r.status = 200 := by
   simp only [clientConnectUnary] at h
   by_cases hk : (!encodingKnown cfg (r.header.get Gen.hdrConnectUnaryEncoding)) = true
-  · rw [if_pos hk] at h; cases h
+  · rw [if_pos hk] at h; split at h <;> cases h
   · rw [if_neg hk] at h
     by_cases hs : r.status ≠ 200
     · rw [if_pos hs] at h
